@@ -239,9 +239,15 @@ pub fn run_c10(args: &Args) {
                     }
                 };
                 rep.eval();
+                // Values whose claim was already refuted in this run: a wrong dimension is
+                // copied by shape inference into everything computed from that value, and
+                // only its origin is reported.
+                let mut refuted: std::collections::HashSet<String> = std::collections::HashSet::new();
+                // `got` follows `wanted`, which is in topological order.
                 for t in &got {
                     let sym = by_name[&t.name];
-                    let producer = c.topo.iter().find(|n| n.2.contains(&t.name)).map(|n| n.3.clone()).unwrap_or_default();
+                    let producer_node = c.topo.iter().find(|n| n.2.contains(&t.name));
+                    let producer = producer_node.map(|n| n.3.clone()).unwrap_or_default();
                     let mut decided = 0;
                     let mut problem: Option<(String, String)> = None;
                     if let Some(dims) = sym.shape() {
@@ -316,6 +322,14 @@ pub fn run_c10(args: &Args) {
                         rep.count("values_with_decided_claims");
                     } else {
                         rep.count("values_with_no_decidable_claim");
+                    }
+                    if problem.is_some() {
+                        let inherited = producer_node.map(|n| n.1.iter().any(|i| refuted.contains(i))).unwrap_or(false);
+                        refuted.insert(t.name.clone());
+                        if inherited {
+                            rep.count("refuted_claims_inherited_from_an_input");
+                            continue;
+                        }
                     }
                     if let Some((kind, msg)) = problem {
                         let attrs = if c.family == "singleop" { format!("{}", c.variant["attrs"]) } else { format!("{}", c.variant) };
